@@ -110,7 +110,9 @@ def hostile_filters(tier):
     # several filters that each carry tag conditions (bound values of one filter must never leak into another)
     tagf = [{"#e": ["a"]}, {"#t": ["it's"]}, {"kinds": [7], "#p": [A]}, {"kinds": [2], "#e": ["b"]}, {"#t": ["'"]}, {"#e": ["x' OR '1'='1"], "kinds": [255]},
             {"#p": [A], "#e": ["ab"]}, {"kinds": [1], "#t": ["ab", "%"]}, {"#'": ["q"]}, {"#e": ["b"], "#p": [], "kinds": [1]}, {"kinds": [256], "#t": ["é"]},
-            {"#r": ["a:b"]}, {"#e": [], "#t": ["_"]}, {"authors": [A], "#t": [":x"]}]
+            {"#r": ["a:b"]}, {"#e": [], "#t": ["_"]}, {"authors": [A], "#t": [":x"]}, {"#e": ["a", "ab"], "#p": [A]}, {"#e": ["a", "ab", "b"], "#t": ["zz"]}]
+    for f in tagf:
+        lists.append([f])
     for f, g in itertools.permutations(tagf, 2):
         lists.append([f, g])
     for f, g, h in list(itertools.permutations(tagf[:7], 3))[:: (1 if tier == "thorough" else 5)]:
